@@ -122,6 +122,9 @@ def uf_axioms(formulas):
        pow10(x) > 0, exp(x) > 0, sqrt(x) >= 0 (DESIGN 1.4)"""
     out = []
     seen = set()
+    from . import ops as _ops
+    if not _ops.UF_USED[0]:
+        return out
 
     def go(x):
         if x.get_id() in seen:
